@@ -1,19 +1,33 @@
 """C17 - copies are faithful and share no mutable state with the original.
 
 spec/CopyHeap.tla: objects as records of fields pointing to heap cells, per-object memo of
-derived values, Copy as (deep | shared | dropped) per field.  TLC checks Faithful and Isolated
-for the intended design (everything deep, memo verified before it is handed over), shows that
-each deviation class (shared field, dropped field, adopted unverified memo) is detectable, and
-emits every history read*/edit*/copy/edit*/read* up to a depth over abstract field classes
-{geom, meta, param}.  Each history is replayed on real objects of every geometry kind and
-every copy route (copy(), copy.copy, copy.deepcopy); fields are instantiated with concrete
-editable cells.  Faithful: the full projection (data, parameters, visuals, metadata, derived
-values) of the copy equals that of the original right after copying.  Isolated: an edit of
-one side - in place or through the API - leaves the other side's projection unchanged.
-An edit only counts if it changes the projection of the object it was applied to.
+derived values (themselves objects that can be edited and may view the cell they were computed
+from), Copy as (deep | shared | dropped) per field and (private | shared) derived objects.  TLC
+checks Faithful and Isolated for the intended design (everything deep, memo verified before it
+is handed over, private derived objects), shows that each deviation class (shared field,
+dropped field, adopted unverified memo, shared derived object, shared derived object viewing
+the source's buffer, sharing along a chain of copies) is detectable, and emits every history up
+to a depth.  Each history is replayed on real objects of every geometry kind and every copy
+route; fields are instantiated with concrete editable cells.
+Faithful: the full projection (data, parameters, visuals, metadata, derived values) of the copy
+equals that of its source right after copying.  Isolated: an edit of one object - in place or
+through the API, of its data or of a derived object it handed out - leaves the projection of
+every other object unchanged.  An edit only counts if it changes the projection of the object
+it was applied to (checked at start-up for every catalogue entry).
+
+Families of histories (emitted by TLC, plus systematic single-step ones of the same shape):
+  base     read* / edit* / copy / edit* / read* over {geom, meta, param} on two objects; every
+           read also evaluates one more public value of the object (catalogue discovered from the
+           class), so that "values already computed" ranges over everything the object computes
+  cells    every kind x route x every single cell edit on either side, cache warm and cold, and
+           the in-place edit of the source that its cache has not noticed before the copy
+  derived  histories with edits of derived objects (hull mesh, facet lists, adjacency graph,
+           sparse matrices, spatial index ...); the projection then includes what those answer
+  chain    three objects: copies of copies and two copies of one source
+  reads    one public value evaluated, then a copy by every route, then an edit of the copy
+           (history dependent copy failures), and "everything evaluated", then a copy
 """
 import copy as pycopy
-import io
 import json
 import sys
 import time
@@ -27,10 +41,14 @@ from harness.common import (MachineryError, Verdict, import_trimesh, pmap, seed,
 PROP = "C17"
 
 CFG = """CONSTANTS
-  Fields <- F3
+  Objs <- {objs}
+  Fields <- {fields}
   Shared <- {sh}
   Dropped <- {dr}
   AdoptsUnverifiedCache = {auc}
+  SharesDerived = {sd}
+  DerivedViewsSource = {dvs}
+  DerivedEdits = {de}
   MaxDepth = {depth}
 SPECIFICATION Spec
 {view}
@@ -38,10 +56,15 @@ SPECIFICATION Spec
 CHECK_DEADLOCK FALSE
 """
 
+EMIT = "INVARIANT EmitLeaf"
 
-def cfg(depth, sh="None0", dr="None0", auc=False, view=True, props="INVARIANT Faithful\nPROPERTY Isolated"):
-    return CFG.format(sh=sh, dr=dr, auc="TRUE" if auc else "FALSE", depth=depth,
-                      view="VIEW View" if view else "", props=props)
+
+def cfg(depth, objs="Objs2", fields="F3", sh="None0", dr="None0", auc=False, sd=False, dvs=False, de=False,
+        view=True, props="INVARIANT Faithful\nPROPERTY Isolated"):
+    def B(b):
+        return "TRUE" if b else "FALSE"
+    return CFG.format(objs=objs, fields=fields, sh=sh, dr=dr, auc=B(auc), sd=B(sd), dvs=B(dvs), de=B(de),
+                      depth=depth, view="VIEW View" if view else "", props=props)
 
 
 def arr(x, nd=9):
@@ -65,6 +88,10 @@ def jmeta(md):
 class Kind:
     name = ""
     routes = ("copy", "copy.copy", "copy.deepcopy")
+    # expressions (evaluated as "o.<expr>") added to the discovered public properties
+    manual_reads = ()
+    # a representative of its class of kinds (the `reads` family of the quick tier uses these only)
+    representative = False
 
     def make(self, tm):
         raise NotImplementedError
@@ -76,9 +103,19 @@ class Kind:
     def edits(self, tm):
         raise NotImplementedError
 
-    def reads(self, o):
-        """populate caches"""
-        self.project(None, o)
+    # what the derived objects handed out by o answer (None: kind not in the derived family)
+    def dproject(self, tm, o):
+        return None
+
+    # list of (name, edit of a derived object obtained from o)
+    def dedits(self, tm):
+        return []
+
+    def full(self, tm, o):
+        p = dict(self.project(tm, o))
+        for k, v in (self.dproject(tm, o) or {}).items():
+            p["d:" + k] = v
+        return p
 
 
 def meta_edits():
@@ -110,35 +147,79 @@ def _vassign(o):
     o.vertices = np.array(o.vertices) + 1.0
 
 
+def _hull_v0(o):
+    o.convex_hull.vertices[0] += 5.0
+
+
+# fixed query points for spatial indexes (the first is a vertex of the test meshes)
+QPTS = np.array([[0.5, 0.0, -0.5], [1.5, 2.0, 2.5], [1.0, 1.0, 1.0], [0.0, 0.0, 0.0]])
+
+
 class MeshKind(Kind):
+    routes = ("copy", "copy.copy", "copy.deepcopy", "copy(include_cache=True)")
+    manual_reads = ("kdtree", "triangles_tree", "outline()", "to_dict()", "smooth_shaded", "facets_on_hull",
+                    "visual.face_colors", "visual.vertex_colors", "visual.kind", "visual.transparency",
+                    "visual.main_color", "export(file_type='stl')", "section(plane_origin=[1, 1, 1], plane_normal=[0, 0, 1])",
+                    "nearest.on_surface([[0, 0, 0]])", "ray.intersects_any([[1, 1, 9]], [[0, 0, -1]])", "contains([[1, 1, 1]])",
+                    "copy()", "__copy__()", "__hash__()", "identifier_hash", "submesh([[0, 1]])", "split()")
+
     def __init__(self, variant):
         self.variant = variant
         self.name = "mesh_" + variant
+        self.representative = variant == "face_color"
 
     def make(self, tm):
         m = tm.creation.box(extents=[1, 2, 3])
         m = tm.Trimesh(vertices=np.array(m.vertices) + 1.0, faces=np.array(m.faces), process=False)
-        if self.variant == "face_color":
+        v = self.variant
+        if v == "face_color":
             m.visual.face_colors = (np.arange(len(m.faces) * 4).reshape(-1, 4) * 5 % 255).astype(np.uint8)
-        elif self.variant == "vertex_color":
+        elif v == "vertex_color":
             m.visual.vertex_colors = (np.arange(len(m.vertices) * 4).reshape(-1, 4) * 7 % 255).astype(np.uint8)
-        elif self.variant == "painted":
+        elif v == "painted":
             # nothing assigned: default colours looked at, then painted in place (the README idiom)
             m.visual.face_colors[0]
             m.visual.vertex_colors[::2] = [255, 0, 0, 255]
-        elif self.variant == "texture":
+        elif v in ("texture", "pbr", "texattr"):
             from PIL import Image
             img = Image.fromarray((np.arange(48).reshape(4, 4, 3) * 5).astype(np.uint8))
             uv = (np.arange(len(m.vertices) * 2).reshape(-1, 2) % 7) / 7.0
-            m.visual = tm.visual.TextureVisuals(uv=uv, image=img)
+            if v == "pbr":
+                mat = tm.visual.material.PBRMaterial(
+                    baseColorTexture=img, baseColorFactor=[10, 20, 30, 255], metallicFactor=0.5, roughnessFactor=0.25,
+                    emissiveFactor=[0.1, 0.2, 0.3], name="shiny", doubleSided=True, alphaMode="BLEND", alphaCutoff=0.25)
+                m.visual = tm.visual.TextureVisuals(uv=uv, material=mat, face_materials=np.arange(len(m.faces)) % 2)
+            elif v == "texattr":
+                mat = tm.visual.material.SimpleMaterial(image=img, diffuse=[1, 2, 3, 255], ambient=[4, 5, 6, 255],
+                                                        specular=[7, 8, 9, 255], glossiness=3.0)
+                m.visual = tm.visual.TextureVisuals(uv=uv, material=mat)
+                # a second per-vertex channel kept by the visuals (e.g. a second uv set / custom attribute)
+                m.visual.vertex_attributes["extra"] = np.arange(len(m.vertices), dtype=float) / 4.0
+            else:
+                m.visual = tm.visual.TextureVisuals(uv=uv, image=img)
+        elif v == "attrs":
+            # per-vertex / per-face data of the mesh (what loaders put scalar fields into)
+            m.vertex_attributes["weight"] = np.arange(len(m.vertices), dtype=float) / 8.0
+            m.vertex_attributes["id2"] = np.arange(len(m.vertices) * 2).reshape(-1, 2)
+            m.face_attributes["group"] = np.arange(len(m.faces)) % 3
         m.density = 2.0
         set_meta(m)
+        if v == "normals":
+            # vertex normals assigned by the user / a loader (not the ones trimesh would compute); assigned last:
+            # they only live in the cache, which any change of the stored data (even `density`) empties
+            n = np.tile([0.0, 0.6, 0.8], (len(m.vertices), 1))
+            n[::2] = [1.0, 0.0, 0.0]
+            m.vertex_normals = n
         return m
 
     def project(self, tm, m):
         p = {"v": arr(m.vertices), "f": arr(m.faces), "area": round(float(m.area), 9), "volume": round(float(m.volume), 9),
              "bounds": arr(m.bounds), "fn": arr(m.face_normals), "density": float(m.density), "meta": jmeta(m.metadata),
-             "kind": str(m.visual.kind), "mass": round(float(m.mass), 9), "edges_unique": len(m.edges_unique)}
+             "kind": str(m.visual.kind), "mass": round(float(m.mass), 9), "edges_unique": len(m.edges_unique),
+             "va": {k: arr(x) for k, x in sorted(m.vertex_attributes.items())},
+             "fa": {k: arr(x) for k, x in sorted(m.face_attributes.items())}}
+        if self.variant == "normals":
+            p["vn"] = arr(m.vertex_normals)
         # only the colours that are *defined* belong to the copy contract; colours derived from the
         # other kind are a cached by-product (their freshness is a C01/C07 matter, not a copy matter)
         if m.visual.kind == "face":
@@ -146,8 +227,18 @@ class MeshKind(Kind):
         elif m.visual.kind == "vertex":
             p["vc"] = arr(m.visual.vertex_colors)
         elif m.visual.kind == "texture":
-            p["uv"] = arr(m.visual.uv)
-            p["img"] = np.asarray(m.visual.material.image).tolist()
+            p["vattr"] = {k: arr(x) for k, x in sorted(m.visual.vertex_attributes.items())}
+            mat = m.visual.material
+            p["mat"] = type(mat).__name__
+            fm = m.visual.face_materials
+            p["face_materials"] = None if fm is None else arr(fm)
+            if hasattr(mat, "baseColorFactor"):
+                p["img"] = np.asarray(mat.baseColorTexture).tolist()
+                p["pbr"] = [arr(mat.baseColorFactor), mat.metallicFactor, mat.roughnessFactor, arr(mat.emissiveFactor),
+                            str(mat.name), bool(mat.doubleSided), str(mat.alphaMode), mat.alphaCutoff]
+            else:
+                p["img"] = np.asarray(mat.image).tolist()
+                p["simple"] = [arr(mat.diffuse), arr(mat.ambient), arr(mat.specular), float(mat.glossiness)]
         return p
 
     def edits(self, tm):
@@ -159,7 +250,8 @@ class MeshKind(Kind):
         geom = [("vertices[0]+=", _v0), ("vertices*=", _vscale), ("vertices=", _vassign), ("faces[0]=", f0), ("faces=", fassign),
                 ("apply_translation", lambda o: o.apply_translation([1, 0, 0])), ("update_faces", lambda o: o.update_faces(np.arange(len(o.faces)) != 1))]
         param = [("density=", lambda o: setattr(o, "density", o.density + 1.0))]
-        if self.variant == "face_color":
+        v = self.variant
+        if v == "face_color":
             def fc(o):
                 c = np.array(o.visual.face_colors)
                 c[0] = (c[0].astype(int) + 50) % 255
@@ -168,11 +260,11 @@ class MeshKind(Kind):
             def fc_inplace(o):
                 o.visual.face_colors[1] = [9, 8, 7, 255]
             param += [("visual.face_colors=", fc), ("visual.face_colors[1]=", fc_inplace)]
-        elif self.variant == "painted":
+        elif v == "painted":
             def paint_more(o):
                 o.visual.vertex_colors[1::2] = [0, 0, 255, 255]
             param += [("visual.vertex_colors[1::2]=", paint_more)]
-        elif self.variant == "vertex_color":
+        elif v == "vertex_color":
             def vc(o):
                 c = np.array(o.visual.vertex_colors)
                 c[0] = (c[0].astype(int) + 50) % 255
@@ -181,28 +273,122 @@ class MeshKind(Kind):
             def vc_inplace(o):
                 o.visual.vertex_colors[1] = [9, 8, 7, 255]
             param += [("visual.vertex_colors=", vc), ("visual.vertex_colors[1]=", vc_inplace)]
-        elif self.variant == "texture":
+        elif v in ("texture", "texattr", "pbr"):
             def uv(o):
                 o.visual.uv[0] += 0.25
+            param += [("visual.uv[0]+=", uv)]
+            if v == "pbr":
+                def px(o):
+                    o.visual.material.baseColorTexture.putpixel((0, 0), (200, 100, 50))
 
-            def px(o):
-                o.visual.material.image.putpixel((0, 0), (200, 100, 50))
-            param += [("visual.uv[0]+=", uv), ("material.image.putpixel", px)]
+                def bcf(o):
+                    o.visual.material.baseColorFactor[0] += 7
+
+                def bcf_assign(o):
+                    o.visual.material.baseColorFactor = (np.array(o.visual.material.baseColorFactor).astype(int) + [0, 9, 0, 0]) % 255
+
+                def metal(o):
+                    o.visual.material.metallicFactor = o.visual.material.metallicFactor * 0.5
+
+                def fmat(o):
+                    o.visual.face_materials[0] += 1
+                param += [("material.baseColorTexture.putpixel", px), ("material.baseColorFactor[0]+=", bcf),
+                          ("material.baseColorFactor=", bcf_assign), ("material.metallicFactor=", metal),
+                          ("visual.face_materials[0]+=", fmat)]
+            else:
+                def px(o):
+                    o.visual.material.image.putpixel((0, 0), (200, 100, 50))
+                param += [("material.image.putpixel", px)]
+            if v == "texattr":
+                def extra(o):
+                    o.visual.vertex_attributes["extra"][0] += 1.0
+
+                def diffuse(o):
+                    o.visual.material.diffuse[0] += 9
+                param += [("visual.vertex_attributes[extra][0]+=", extra), ("material.diffuse[0]+=", diffuse)]
+        elif v == "attrs":
+            def va_inplace(o):
+                o.vertex_attributes["weight"][0] += 1.0
+
+            def va_assign(o):
+                o.vertex_attributes["new%d" % len(o.vertex_attributes)] = np.ones(len(o.vertices))
+
+            def fa_inplace(o):
+                o.face_attributes["group"][0] += 5
+
+            def fa_assign(o):
+                o.face_attributes["group"] = np.array(o.face_attributes["group"]) + 1
+            param += [("vertex_attributes[weight][0]+=", va_inplace), ("vertex_attributes[new]=", va_assign),
+                      ("face_attributes[group][0]+=", fa_inplace), ("face_attributes[group]=", fa_assign)]
+        elif v == "normals":
+            def vn(o):
+                n = np.array(o.vertex_normals)[::-1].copy()
+                n[0] = [0.0, 0.0, -1.0] if not np.allclose(n[0], [0, 0, -1]) else [0.0, -1.0, 0.0]
+                o.vertex_normals = n
+            param += [("vertex_normals=", vn)]
         return {"geom": geom, "meta": meta_edits(), "param": param}
+
+    def dproject(self, tm, m):
+        if self.variant not in ("plain", "face_color"):
+            return None
+        h = m.convex_hull
+        g = m.vertex_adjacency_graph
+        return {"hull": [arr(h.bounds), round(float(h.volume), 8), len(h.vertices), len(h.faces)],
+                "obb": arr(np.sort(m.bounding_box_oriented.primitive.extents), 7),
+                "bsphere": round(float(m.bounding_sphere.primitive.radius), 7),
+                "kdtree": arr(m.kdtree.query(QPTS)[0]),
+                "facets": [arr(f) for f in m.facets],
+                "vag": [g.number_of_nodes(), g.number_of_edges()],
+                "vnb": [sorted(int(i) for i in x) for x in m.vertex_neighbors],
+                "edges_sparse": int(m.edges_sparse.sum()),
+                "mass_properties": round(float(m.mass_properties.mass), 9)}
+
+    def dedits(self, tm):
+        def facet0(o):
+            o.facets[0][0] += 1
+
+        def vag(o):
+            g = o.vertex_adjacency_graph
+            g.add_edge(0, 1000 + g.number_of_nodes())
+
+        def es(o):
+            d = o.edges_sparse.data
+            d[:] = ~d
+
+        def mp(o):
+            o.mass_properties.mass = o.mass_properties.mass + 1.0
+        return [("convex_hull.vertices[0]+=", _hull_v0), ("convex_hull.apply_scale", lambda o: o.convex_hull.apply_scale(2.0)),
+                ("facets.append", lambda o: o.facets.append(np.array([0]))), ("facets[0][0]+=", facet0),
+                ("vertex_adjacency_graph.add_edge", vag), ("vertex_neighbors[0].append", lambda o: o.vertex_neighbors[0].append(99)),
+                ("edges_sparse.data[:]=", es), ("mass_properties.mass=", mp)]
+
+
+def prim_params(p):
+    pr = {}
+    for k in sorted(p.primitive._defaults if hasattr(p.primitive, "_defaults") else []):
+        v = getattr(p.primitive, k)
+        pr[k] = arr(v) if isinstance(v, (np.ndarray, list, tuple, float, int, np.number)) else str(getattr(v, "wkt", v))
+    return pr
 
 
 class PrimKind(Kind):
+    manual_reads = ("to_dict()", "to_mesh()", "kdtree", "primitive.transform", "visual.face_colors", "__hash__()")
+
     def __init__(self, which):
         self.which = which
         self.name = "prim_" + which
+        self.representative = which == "cylinder"
 
     def make(self, tm):
         T = np.eye(4)
         T[:3, 3] = [1, 2, 3]
         T[:3, :3] = [[0, -1, 0], [1, 0, 0], [0, 0, 1]]
         P = tm.primitives
-        if self.which == "box":
+        if self.which in ("box", "box_colored"):
             p = P.Box(extents=[1, 2, 3], transform=T)
+            if self.which == "box_colored":
+                p.visual.face_colors = (np.arange(12 * 4).reshape(-1, 4) * 5 % 255).astype(np.uint8)
+                p.density = 3.0
         elif self.which == "sphere":
             p = P.Sphere(radius=2.0, center=[1, 0, 0], subdivisions=1)
         elif self.which == "cylinder":
@@ -216,12 +402,14 @@ class PrimKind(Kind):
         return p
 
     def project(self, tm, p):
-        pr = {}
-        for k in sorted(p.primitive._defaults if hasattr(p.primitive, "_defaults") else []):
-            v = getattr(p.primitive, k)
-            pr[k] = arr(v) if isinstance(v, (np.ndarray, list, tuple, float, int, np.number)) else str(getattr(v, "wkt", v))
-        return {"primitive": pr, "nv": len(p.vertices), "nf": len(p.faces), "volume": round(float(p.volume), 8),
-                "bounds": arr(p.bounds, 8), "meta": jmeta(p.metadata), "area": round(float(p.area), 8)}
+        d = {"primitive": prim_params(p), "nv": len(p.vertices), "nf": len(p.faces), "volume": round(float(p.volume), 8),
+             "bounds": arr(p.bounds, 8), "meta": jmeta(p.metadata), "area": round(float(p.area), 8)}
+        if self.which == "box_colored":
+            d["fc"] = arr(p.visual.face_colors)
+            d["kind"] = str(p.visual.kind)
+            d["density"] = float(p.density)
+            d["mass"] = round(float(p.mass), 8)
+        return d
 
     def edits(self, tm):
         w = self.which
@@ -239,6 +427,7 @@ class PrimKind(Kind):
             M = np.array(o.primitive.transform)
             M[:3, 3] += [1, 1, 0]
             o.primitive.transform = M
+
         def transform_inplace(o):
             o.primitive.transform[:3, 3] += [0.5, 0.0, 1.5]
 
@@ -253,7 +442,7 @@ class PrimKind(Kind):
         param = [("primitive.transform=", transform), ("primitive.transform[:3,3]+=", transform_inplace)]
         if w != "extrusion":
             param += [("apply_scale", scale2), ("apply_transform(similarity)", scale_transform)]
-        if w == "box":
+        if w in ("box", "box_colored"):
             def extents_inplace(o):
                 o.primitive.extents[1] *= 3.0
             param.append(("primitive.extents[1]*=", extents_inplace))
@@ -261,21 +450,55 @@ class PrimKind(Kind):
             param.append(("primitive.radius=", radius))
         if w in ("cylinder", "capsule", "extrusion"):
             param.append(("primitive.height=", height))
-        if w == "box":
+        if w in ("box", "box_colored"):
             param.append(("primitive.extents=", extents))
+        if w == "box_colored":
+            def fc_inplace(o):
+                o.visual.face_colors[1] = [9, 8, 7, 255]
+            param += [("visual.face_colors[1]=", fc_inplace), ("density=", lambda o: setattr(o, "density", o.density + 1.0))]
         geom = [("apply_translation", lambda o: o.apply_translation([0, 0, 2])),
                 ("apply_transform", lambda o: o.apply_transform(tm.transformations.rotation_matrix(np.pi / 2, [1, 0, 0])))]
         return {"geom": geom, "meta": meta_edits(), "param": param}
 
+    def dproject(self, tm, p):
+        if self.which != "cylinder":
+            return None
+        h = p.convex_hull
+        return {"hull": [arr(h.bounds, 7), round(float(h.volume), 7), len(h.vertices)],
+                "kdtree": arr(p.kdtree.query(QPTS)[0], 7)}
+
+    def dedits(self, tm):
+        return [("convex_hull.vertices[0]+=", _hull_v0)]
+
+
+def ent_proj(e):
+    d = [type(e).__name__, arr(e.points), bool(getattr(e, "closed", False)), str(e.layer),
+         None if e.color is None else arr(e.color), jmeta(e.metadata)]
+    if hasattr(e, "text"):
+        d += [str(e.text), float(e.height), list(e.align)]
+    return d
+
 
 class PathKind(Kind):
-    def __init__(self, dim):
+    manual_reads = ("to_dict()", "polygons_full", "polygons_closed", "kdtree", "vertex_graph", "enclosure_directed",
+                    "identifier", "__hash__()", "copy()", "simplify()", "discretize_path(o.paths[0])",
+                    "export(file_type='dict')", "to_planar()", "to_3D()", "is_closed")
+
+    def __init__(self, dim, rich=False):
         self.dim = dim
-        self.name = "path%dd" % dim
+        self.rich = rich
+        self.name = "path%dd" % dim + ("_rich" if rich else "")
+        self.representative = dim == 2 and not rich
 
     def make(self, tm):
-        from trimesh.path.entities import Arc, Line
-        if self.dim == 2:
+        from trimesh.path.entities import Arc, Bezier, Line, Text
+        if self.dim == 2 and self.rich:
+            v = np.array([[0, 0], [4, 0], [4, 3], [0, 3], [1, 1], [2, 2], [3, 1], [1, 2]], dtype=float)
+            ents = [Line([0, 1, 2], color=[255, 0, 0, 255], layer="L1", metadata={"k": [1]}), Line([2, 3, 0]),
+                    Arc([4, 5, 6], closed=True, layer="L2", color=[0, 9, 0, 255]), Bezier([4, 7, 5, 6], layer="B"),
+                    Text(origin=0, text="hi", height=2.0, vector=1, align=("center", "top"), layer="T")]
+            p = tm.path.Path2D(entities=ents, vertices=v, process=False)
+        elif self.dim == 2:
             v = np.array([[0, 0], [4, 0], [4, 3], [0, 3], [1, 1], [2, 2], [3, 1]], dtype=float)
             p = tm.path.Path2D(entities=[Line([0, 1, 2]), Line([2, 3, 0]), Arc([4, 5, 6], closed=True)], vertices=v, process=False)
         else:
@@ -291,6 +514,10 @@ class PathKind(Kind):
         if self.dim == 2:
             d["area"] = round(float(p.area), 9)
             d["nroot"] = len(p.root)
+        if self.rich:
+            d["ents"] = [ent_proj(e) for e in p.entities]
+            d["layers"] = [str(x) for x in p.layers]
+            d["colors"] = None if p.colors is None else arr(p.colors)
         return d
 
     def edits(self, tm):
@@ -310,16 +537,64 @@ class PathKind(Kind):
             o.apply_transform(M)
         geom = [("vertices[0]+=", _v0), ("vertices*=", _vscale), ("vertices=", _vassign), ("apply_transform", transform)]
         param = [("entities[0].points=", ent_rev), ("entities[1].points[1]=", ent_inplace)]
+        if self.rich:
+            def color_inplace(o):
+                o.entities[0].color[1] += 5
+
+            def layer(o):
+                o.entities[1].layer = "N%d" % len(str(o.entities[1].layer))
+
+            def emeta(o):
+                o.entities[0].metadata["k"].append(len(o.entities[0].metadata["k"]))
+
+            def text(o):
+                o.entities[4].text = o.entities[4].text + "!"
+
+            def colors(o):
+                c = np.array(o.colors)
+                c[:, 2] = (c[:, 2].astype(int) + 40) % 255
+                o.colors = c
+            param += [("entities[0].color[1]+=", color_inplace), ("entities[1].layer=", layer),
+                      ("entities[0].metadata[k].append", emeta), ("entities[4].text=", text), ("colors=", colors)]
         return {"geom": geom, "meta": meta_edits(), "param": param}
+
+    def dproject(self, tm, p):
+        if not (self.dim == 2 and not self.rich):
+            return None
+        return {"discrete": [arr(x) for x in p.discrete], "vertex_graph": [p.vertex_graph.number_of_nodes(), p.vertex_graph.number_of_edges()],
+                "enclosure": [p.enclosure_directed.number_of_nodes(), p.enclosure_directed.number_of_edges()],
+                "polygons_full": [round(float(x.area), 9) for x in p.polygons_full], "npoly": len(p.polygons_full),
+                "kdtree": arr(p.kdtree.query(QPTS[:, :2])[0]), "paths": [arr(x) for x in p.paths]}
+
+    def dedits(self, tm):
+        def disc(o):
+            o.discrete[0][0] += 5.0
+
+        def vg(o):
+            g = o.vertex_graph
+            g.add_edge(0, 1000 + g.number_of_nodes())
+
+        def enc(o):
+            g = o.enclosure_directed
+            g.add_node(1000 + g.number_of_nodes())
+        return [("discrete[0][0]+=", disc), ("vertex_graph.add_edge", vg), ("enclosure_directed.add_node", enc),
+                ("polygons_full.pop", lambda o: o.polygons_full.pop()), ("paths.append", lambda o: o.paths.append(np.array([0])))]
 
 
 class CloudKind(Kind):
-    name = "pointcloud"
+    manual_reads = ("kdtree", "convex_hull", "colors", "visual.vertex_colors", "__hash__()", "hash()", "copy()",
+                    "bounding_box", "bounding_box_oriented", "query([[0, 0, 0]])")
+
+    def __init__(self, colored=True):
+        self.colored = colored
+        self.name = "pointcloud" if colored else "pointcloud_plain"
+        self.representative = colored
 
     def make(self, tm):
         v = np.arange(15, dtype=float).reshape(5, 3) * [1, 0.5, 2]
+        v[3] = [9.0, -4.0, 2.0]
         c = (np.arange(20).reshape(5, 4) * 11 % 255).astype(np.uint8)
-        p = tm.PointCloud(v, colors=c)
+        p = tm.PointCloud(v, colors=c if self.colored else None)
         set_meta(p)
         return p
 
@@ -329,6 +604,9 @@ class CloudKind(Kind):
 
     def edits(self, tm):
         def col(o):
+            if len(o.colors) == 0:
+                o.colors = (np.arange(len(o.vertices) * 4).reshape(-1, 4) * 3 % 255).astype(np.uint8)
+                return
             c = np.array(o.colors)
             c[0] = (c[0].astype(int) + 40) % 255
             o.colors = c
@@ -337,34 +615,105 @@ class CloudKind(Kind):
             o.colors[1] = [1, 2, 3, 255]
         geom = [("vertices[0]+=", _v0), ("vertices*=", _vscale), ("vertices=", _vassign),
                 ("apply_translation", lambda o: o.apply_translation([1, 1, 1]))]
-        return {"geom": geom, "meta": meta_edits(), "param": [("colors=", col), ("colors[1]=", col_inplace)]}
+        param = [("colors=", col)] + ([("colors[1]=", col_inplace)] if self.colored else [])
+        return {"geom": geom, "meta": meta_edits(), "param": param}
+
+    def dproject(self, tm, p):
+        if not self.colored:
+            return None
+        h = p.convex_hull
+        return {"hull": [arr(h.bounds, 7), round(float(h.volume), 7), len(h.vertices)],
+                "kdtree": arr(p.kdtree.query(QPTS)[0]), "bbox": arr(p.bounding_box.bounds)}
+
+    def dedits(self, tm):
+        return [("convex_hull.vertices[0]+=", _hull_v0), ("convex_hull.apply_scale", lambda o: o.convex_hull.apply_scale(2.0))]
+
+
+def geom_proj(g):
+    d = {"type": type(g).__name__, "v": arr(g.vertices), "meta": jmeta(g.metadata)}
+    if hasattr(g, "faces"):
+        d["f"] = arr(g.faces)
+    if hasattr(g, "primitive"):
+        d["primitive"] = prim_params(g)
+    if hasattr(g, "entities"):
+        d["ents"] = [[type(e).__name__, arr(e.points)] for e in g.entities]
+    if hasattr(g, "colors") and not hasattr(g, "entities"):
+        d["colors"] = arr(g.colors)
+    return d
 
 
 class SceneKind(Kind):
-    name = "scene"
+    manual_reads = ("graph.nodes", "graph.nodes_geometry", "graph.geometry_nodes", "graph.to_flattened()", "graph.to_edgelist()",
+                    "graph.to_gltf(o)", "graph.to_networkx()", "graph.transforms.children", "graph.transforms.nodes",
+                    "graph.transforms.parents", "graph.transforms.successors(o.graph.base_frame)", "graph.base_frame",
+                    "graph.get('n_box2')", "graph['n_tet']", "graph.__hash__()", "__hash__()", "dump()", "dump(concatenate=True)",
+                    "camera_rays()", "copy()", "scaled(2.0)", "subscene('n_tet')", "convex_hull", "export(file_type='dict')",
+                    "graph.transforms.node_data", "graph.transforms.edge_data", "graph.copy()")
+
+    def __init__(self, variant="base"):
+        self.variant = variant
+        self.name = "scene" if variant == "base" else "scene_" + variant
+        self.representative = variant == "base"
 
     def make(self, tm):
+        v = self.variant
         m = tm.creation.box(extents=[1, 1, 2])
         t = tm.Trimesh(vertices=[[0, 0, 0], [1, 0, 0], [0, 1, 0], [0, 0, 1]], faces=[[0, 2, 1], [0, 1, 3], [1, 2, 3], [2, 0, 3]], process=False)
-        s = tm.Scene()
+        s = tm.Scene(base_frame="root") if v == "mixed" else tm.Scene()
         A = np.eye(4)
         A[:3, 3] = [2, 0, 0]
         B = tm.transformations.rotation_matrix(np.pi / 2, [0, 0, 1])
         B[:3, 3] = [0, 3, 0]
+        if v == "repair":
+            # an edge whose rotation has drifted: whether it is repaired depends on graph.repair_rigid
+            B = tm.transformations.rotation_matrix(0.3, [0, 0, 1])
+            B[0, 0] += 1e-4
+            B[:3, 3] = [0, 3, 0]
+            s.graph.repair_rigid = 1e-2
         s.add_geometry(m, node_name="n_box", geom_name="box", transform=A)
         s.add_geometry(t, node_name="n_tet", geom_name="tet", parent_node_name="n_box", transform=B)
         s.add_geometry(m, node_name="n_box2", geom_name="box", parent_node_name="n_tet", transform=A)
+        if v == "mixed":
+            s.add_geometry(tm.PointCloud(np.arange(12, dtype=float).reshape(4, 3) / 3.0, colors=[255, 0, 0, 255]),
+                           node_name="n_pc", geom_name="pc", parent_node_name="n_tet", transform=A)
+            s.add_geometry(tm.primitives.Box(extents=[1.0, 2.0, 0.5]), node_name="n_prim", geom_name="prim", transform=B)
+            s.add_geometry(tm.load_path(np.array([[0, 0, 0], [1, 0, 0], [1, 1, 0.0]])), node_name="n_path", geom_name="path",
+                           parent_node_name="n_box")
+            s.graph.update("n_pc", "n_tet", metadata={"tag": [1, 2]})
+        elif v == "camera":
+            s.camera = tm.scene.cameras.Camera(name="cam", resolution=[64, 48], fov=[50.0, 40.0], z_near=0.5, z_far=50.0)
+            s.camera_transform = tm.transformations.translation_matrix([0, 0, 9.0])
+        elif v == "lights":
+            L = tm.scene.lighting
+            s.lights = [L.PointLight(name="L1", color=[255, 10, 20, 255], intensity=3.0, radius=5.0),
+                        L.DirectionalLight(name="L2", intensity=2.0)]
+            s.graph.update("L1", matrix=tm.transformations.translation_matrix([0, 0, 5.0]))
+            s.graph.update("L2", matrix=tm.transformations.translation_matrix([0, 5.0, 0]))
         set_meta(s)
         return s
 
     def project(self, tm, s):
-        edges = sorted([[str(a), str(b), arr(d.get("matrix", np.eye(4))), str(d.get("geometry"))] for a, b, d in s.graph.to_edgelist()])
-        geo = {k: {"v": arr(g.vertices), "f": arr(g.faces), "meta": jmeta(g.metadata)} for k, g in s.geometry.items()}
-        return {"edges": edges, "geometry": geo, "bounds": arr(s.bounds), "meta": jmeta(s.metadata),
-                "nodes_geometry": sorted(map(str, s.graph.nodes_geometry)), "area": round(float(s.area), 9),
-                "world": {str(n): arr(s.graph.get(n)[0]) for n in sorted(s.graph.nodes_geometry)}}
+        edges = sorted([[str(a), str(b), arr(d.get("matrix", np.eye(4))), str(d.get("geometry")), jmeta(d.get("metadata", {}))]
+                        for a, b, d in s.graph.to_edgelist()])
+        geo = {k: geom_proj(g) for k, g in s.geometry.items()}
+        p = {"edges": edges, "geometry": geo, "bounds": arr(s.bounds), "meta": jmeta(s.metadata),
+             "nodes_geometry": sorted(map(str, s.graph.nodes_geometry)), "area": round(float(s.area), 9),
+             "world": {str(n): arr(s.graph.get(n)[0]) for n in sorted(s.graph.nodes_geometry)},
+             "base_frame": str(s.graph.base_frame)}
+        if self.variant == "repair":
+            p["repair_rigid"] = str(s.graph.repair_rigid)
+        if self.variant == "camera":
+            c = s.camera
+            p["camera"] = [str(c.name), arr(c.resolution), arr(c.fov), arr(c.focal), float(c.z_near), float(c.z_far)]
+            p["camera_transform"] = arr(s.camera_transform)
+        if self.variant == "lights":
+            p["lights"] = [[type(x).__name__, str(x.name), arr(x.color), float(x.intensity),
+                            None if x.radius is None else float(x.radius)] for x in s.lights]
+        return p
 
     def edits(self, tm):
+        v = self.variant
+
         def gv(o):
             o.geometry["tet"].vertices[0] += 0.5
 
@@ -377,47 +726,156 @@ class SceneKind(Kind):
             o.graph.update("n_tet", "n_box", matrix=M)
 
         def reparent(o):
-            o.graph.update("n_box2", "world", matrix=np.eye(4))
+            o.graph.update("n_box2", o.graph.base_frame, matrix=np.eye(4))
 
         def delgeom(o):
             o.delete_geometry("tet")
         geom = [("geometry[tet].vertices[0]+=", gv), ("apply_transform", lambda o: o.apply_transform(np.diag([2.0, 2, 2, 1]))),
                 ("geometry[box].metadata", gmeta)]
         param = [("graph.update(edge)", edge), ("graph.update(reparent)", reparent), ("delete_geometry", delgeom)]
+        if v == "mixed":
+            def pcv(o):
+                o.geometry["pc"].vertices[1] += 0.25
+
+            def pcc(o):
+                o.geometry["pc"].colors[0] = [1, 2, 3, 255]
+
+            def prim(o):
+                o.geometry["prim"].primitive.extents = np.array(o.geometry["prim"].primitive.extents) + [0.5, 0.0, 0.0]
+
+            def pathv(o):
+                o.geometry["path"].vertices[0] += 0.5
+
+            def emeta(o):
+                d = o.graph.transforms.edge_data[("n_tet", "n_pc")]["metadata"]["tag"]
+                d.append(len(d))
+            geom += [("geometry[pc].vertices[1]+=", pcv), ("geometry[path].vertices[0]+=", pathv)]
+            param += [("geometry[pc].colors[0]=", pcc), ("geometry[prim].primitive.extents=", prim), ("edge metadata.append", emeta)]
+        elif v == "camera":
+            def fov(o):
+                o.camera.fov = np.array(o.camera.fov) * 0.5
+
+            def zfar(o):
+                o.camera.z_far = o.camera.z_far * 2.0
+
+            def res(o):
+                o.camera.resolution = np.array(o.camera.resolution) + [16, 0]
+
+            def ct(o):
+                M = np.array(o.camera_transform)
+                M[0, 3] += 1.0
+                o.camera_transform = M
+            param += [("camera.fov=", fov), ("camera.z_far=", zfar), ("camera.resolution=", res), ("camera_transform=", ct)]
+        elif v == "lights":
+            def inten(o):
+                o.lights[0].intensity = o.lights[0].intensity + 1.0
+
+            def lcol(o):
+                o.lights[1].color = (np.array(o.lights[1].color).astype(int) + [9, 0, 0, 0]) % 255
+
+            def ladd(o):
+                o.lights.append(tm.scene.lighting.PointLight(name="L%d" % (len(o.lights) + 1), intensity=0.5))
+            param += [("lights[0].intensity=", inten), ("lights[1].color=", lcol), ("lights.append", ladd)]
         return {"geom": geom, "meta": meta_edits(), "param": param}
+
+    def dproject(self, tm, s):
+        if self.variant != "base":
+            return None
+        h = s.convex_hull
+        return {"hull": [arr(h.bounds, 7), round(float(h.volume), 7), len(h.vertices)], "triangles": len(s.triangles),
+                "flat": sorted(s.graph.to_flattened().keys()), "nodes": sorted(map(str, s.graph.nodes))}
+
+    def dedits(self, tm):
+        return [("convex_hull.vertices[0]+=", _hull_v0)]
 
 
 class VoxelKind(Kind):
-    name = "voxel"
+    manual_reads = ("marching_cubes", "as_boxes()", "is_filled([[1.0, 0.0, 0.0]])", "matrix", "sparse_indices", "encoding.dense",
+                    "encoding.sparse_indices", "encoding.shape", "encoding.sum", "copy()", "__hash__()", "encoding.flat",
+                    "revoxelized((2, 2, 2))", "filled_count")
+
+    def __init__(self, enc="dense"):
+        self.enc = enc
+        self.name = "voxel" if enc == "dense" else "voxel_" + enc
+        self.representative = enc == "dense"
 
     def make(self, tm):
+        E = tm.voxel.encoding
         d = np.array([[[1, 0], [1, 1], [0, 1]], [[0, 0], [1, 0], [1, 1]]], dtype=bool)
         T = np.diag([2.0, 2.0, 2.0, 1.0])
         T[:3, 3] = [1, 0, 0]
-        v = tm.voxel.VoxelGrid(d, transform=T)
+        if self.enc == "sparse":
+            e = E.SparseBinaryEncoding(np.argwhere(d), d.shape)
+        elif self.enc == "brle":
+            e = E.BinaryRunLengthEncoding(tm.voxel.runlength.dense_to_brle(d.ravel())).reshape(d.shape)
+        else:
+            e = d
+        v = tm.voxel.VoxelGrid(e, transform=T)
         set_meta(v)
         return v
 
     def project(self, tm, v):
-        return {"shape": list(v.shape), "filled": sorted(map(tuple, np.asarray(v.sparse_indices).tolist())),
+        return {"shape": [int(x) for x in v.shape], "filled": sorted(map(tuple, np.asarray(v.sparse_indices).tolist())),
                 "transform": arr(v.transform), "points": sorted(map(tuple, arr(v.points))), "volume": round(float(v.volume), 9),
-                "meta": jmeta(v.metadata), "bounds": arr(v.bounds)}
+                "meta": jmeta(v.metadata), "bounds": arr(v.bounds), "matrix": np.asarray(v.matrix).astype(int).tolist()}
 
     def edits(self, tm):
+        E = tm.voxel.encoding
+
         def data(o):
-            o.encoding.data[0, 0, 1] = ~o.encoding.data[0, 0, 1]
+            e = o.encoding     # whatever encoding the grid holds now (`encoding=` may have replaced it)
+            name = type(e).__name__
+            if name == "DenseEncoding":
+                e.data[0, 0, 1] = ~e.data[0, 0, 1]
+            elif name == "SparseEncoding":
+                # move one filled cell to a free one
+                idx = e.sparse_indices
+                filled = {tuple(r) for r in np.asarray(idx).tolist()}
+                idx[0] = next(c for c in np.ndindex(*[int(x) for x in o.shape]) if c not in filled)
+            else:
+                raw = e._data._data     # run lengths of the flattened grid: move one cell between the first two runs
+                if raw[1] > 0:
+                    raw[0] += 1
+                    raw[1] -= 1
+                else:
+                    raw[0] -= 1
+                    raw[1] += 1
+
+        def assign(o):
+            o.encoding = E.DenseEncoding(~np.asarray(o.matrix))
 
         def tr(o):
             o.transform[0, 3] += 1.0
-        geom = [("encoding.data[...]=", data), ("apply_translation", lambda o: o.apply_translation([0, 1, 0]))]
+        geom = [("encoding.data[...]=", data), ("apply_translation", lambda o: o.apply_translation([0, 1, 0])), ("encoding=", assign)]
         param = [("transform[0,3]+=", tr), ("apply_scale", lambda o: o.apply_scale(2.0))]
         return {"geom": geom, "meta": meta_edits(), "param": param}
+
+    def dproject(self, tm, v):
+        if self.enc != "dense":
+            return None
+        mc = v.marching_cubes
+        return {"marching_cubes": [arr(mc.bounds, 7), len(mc.vertices)], "points": arr(v.points)}
+
+    def dedits(self, tm):
+        def mc(o):
+            o.marching_cubes.vertices[0] += 5.0
+
+        def pts(o):
+            o.points[0] += 5.0
+        return [("marching_cubes.vertices[0]+=", mc), ("points[0]+=", pts)]
 
 
 def all_kinds():
     return [MeshKind("face_color"), MeshKind("vertex_color"), MeshKind("texture"), MeshKind("plain"), MeshKind("painted"),
             PrimKind("box"), PrimKind("sphere"), PrimKind("cylinder"), PrimKind("capsule"), PrimKind("extrusion"),
-            PathKind(2), PathKind(3), CloudKind(), SceneKind(), VoxelKind()]
+            PathKind(2), PathKind(3), CloudKind(), SceneKind(), VoxelKind(),
+            # audit extension: states the statement names that were not instantiated before
+            MeshKind("attrs"), MeshKind("normals"), MeshKind("pbr"), MeshKind("texattr"), PrimKind("box_colored"),
+            PathKind(2, rich=True), CloudKind(colored=False), SceneKind("mixed"), SceneKind("repair"), SceneKind("camera"),
+            SceneKind("lights"), VoxelKind("sparse"), VoxelKind("brle")]
+
+
+N_OLD_KINDS = 15
 
 
 def do_copy(o, route):
@@ -425,6 +883,8 @@ def do_copy(o, route):
         return o.copy()
     if route == "copy.copy":
         return pycopy.copy(o)
+    if route == "copy(include_cache=True)":
+        return o.copy(include_cache=True)
     return pycopy.deepcopy(o)
 
 
@@ -432,11 +892,51 @@ def diff_keys(a, b):
     return sorted(k for k in set(a) | set(b) if a.get(k) != b.get(k))
 
 
-def replay(tm, kind, route, h, rot):
+XREADS = {}  # kind name -> list of read expressions (filled in by main before the fork)
+
+
+def do_read(o, expr):
+    try:
+        eval("o." + expr, {"o": o, "np": np})
+        return True
+    except BaseException:  # noqa  (a value that cannot be computed in this state is not a read)
+        return False
+
+
+def replay(tm, kind, route, h, rot, fam):
     """-> (failure or None, n_checks, steps)"""
     objs = {"a": kind.make(tm)}
     ed = kind.edits(tm)
+    ded = kind.dedits(tm)
+    xr = XREADS.get(kind.name, [])
+    proj0 = kind.full if fam == "derived" else kind.project
+    tainted = set()   # objects whose derived objects were edited: their derived values are not demanded of copies
     steps = []
+    checks = 0
+
+    def proj(tm_, o_):
+        try:
+            return proj0(tm_, o_)
+        except Exception:
+            # an object whose own derived objects were edited may no longer be able to report; anything else is ours
+            if any(objs.get(n) is o_ for n in tainted):
+                raise _Stop()
+            raise
+
+    def pick(st, lst, j):
+        return lst[st["ci"] % len(lst)] if "ci" in st else lst[(rot + j) % len(lst)]
+
+    try:
+        return _replay_steps(tm, kind, route, h, rot, fam, objs, ed, ded, xr, proj, tainted, steps, pick)
+    except _Stop:
+        return None, len(steps), steps
+
+
+class _Stop(Exception):
+    pass
+
+
+def _replay_steps(tm, kind, route, h, rot, fam, objs, ed, ded, xr, proj, tainted, steps, pick):
     checks = 0
     for j, st in enumerate(h):
         op = st["op"]
@@ -444,43 +944,65 @@ def replay(tm, kind, route, h, rot):
             o = objs.get(st["x"])
             if o is None:
                 return None, checks, steps
-            kind.project(tm, o)
-            steps.append("read " + st["x"])
-        elif op in ("edit", "edit_unnoticed"):
+            if st.get("all"):
+                n = sum(do_read(o, e) for e in xr)
+                steps.append("read %s: %d public values" % (st["x"], n))
+            elif "expr" in st:
+                do_read(o, st["expr"])
+                steps.append("read %s.%s" % (st["x"], st["expr"]))
+            else:
+                proj(tm, o)
+                if xr and fam != "derived":
+                    e = xr[(rot + j) % len(xr)]
+                    do_read(o, e)
+                    steps.append("read %s (+ .%s)" % (st["x"], e))
+                else:
+                    steps.append("read " + st["x"])
+        elif op in ("edit", "edit_unnoticed", "edit_derived"):
             o = objs.get(st["x"])
             if o is None:
                 return None, checks, steps
-            lst = ed[st["f"]]
-            cname, fn = lst[(rot + j) % len(lst)]
-            other = objs.get("b" if st["x"] == "a" else "a")
-            before_self = kind.project(tm, o) if op == "edit" else None
-            before_other = kind.project(tm, other) if other is not None else None
-            if op == "edit_unnoticed" and other is None:
-                pass  # no read between the edit and what follows
+            cname, fn = pick(st, ded, j) if op == "edit_derived" else pick(st, ed[st["f"]], j)
+            others = [(n, x) for n, x in sorted(objs.items()) if n != st["x"]]
+            if op == "edit":
+                proj(tm, o)   # the edited object has verified its own cache before the edit
+            before = [(n, proj(tm, x)) for n, x in others]
             try:
                 fn(o)
             except BaseException as e:  # noqa
                 steps.append("edit %s.%s raised %s" % (st["x"], cname, type(e).__name__))
                 return None, checks, steps
+            if op == "edit_derived":
+                tainted.add(st["x"])
             steps.append("%s %s.%s" % (op, st["x"], cname))
-            if other is not None:
-                after_other = kind.project(tm, other)
+            for (n, x), (_, b4) in zip(others, before):
+                after = proj(tm, x)
                 checks += 1
-                dk = diff_keys(before_other, after_other)
+                dk = diff_keys(b4, after)
                 if dk:
-                    return {"clause": "Isolated", "cell": cname, "edited": st["x"], "changed_on_other": dk}, checks, steps
+                    return {"clause": "Isolated", "cell": cname, "edited": st["x"], "observed": n, "changed_on_other": dk,
+                            "before": {k: str(b4.get(k))[:100] for k in dk[:3]},
+                            "after": {k: str(after.get(k))[:100] for k in dk[:3]}}, checks, steps
         elif op == "copy":
-            a = objs["a"]
+            src, dst = st.get("src", "a"), st.get("dst", "b")
+            a = objs.get(src)
+            if a is None:
+                return None, checks, steps
             try:
                 b = do_copy(a, route)
             except BaseException as e:  # noqa
                 return {"clause": "CopyRaises", "exc": type(e).__name__ + ": " + str(e)[:100]}, checks, steps
-            objs["b"] = b
-            steps.append("copy via " + route)
-            pb = kind.project(tm, b)
-            pa = kind.project(tm, a)
+            objs[dst] = b
+            steps.append("%s = copy of %s via %s" % (dst, src, route))
+            pb = proj(tm, b)
+            pa = proj(tm, a)
             checks += 1
             dk = diff_keys(pa, pb)
+            if src in tainted:
+                # what an object reports after its own derived objects were edited is not constrained (its cached
+                # hull, mass properties, point list ... feed other values), so neither is what a copy of it reports
+                tainted.add(dst)
+                dk = []
             if dk:
                 return {"clause": "Faithful", "differs": dk, "orig": {k: str(pa.get(k))[:120] for k in dk},
                         "copy": {k: str(pb.get(k))[:120] for k in dk}}, checks, steps
@@ -493,22 +1015,34 @@ def _chunk(args):
     tm = import_trimesh()
     kinds = {k.name: k for k in all_kinds()}
     out = []
-    n = nchk = 0
-    for idx, h, kname, route in args:
-        f, c, steps = replay(tm, kinds[kname], route, h, idx + seed())
-        n += 1
+    cnt = {}
+    nchk = 0
+    for idx, h, kname, route, fam in args:
+        f, c, steps = replay(tm, kinds[kname], route, h, idx + seed(), fam)
+        cnt[fam] = cnt.get(fam, 0) + 1
         nchk += c
         if f:
             f = dict(f)
-            f.update({"kind": kname, "route": route, "steps": steps})
+            f.update({"kind": kname, "route": route, "family": fam, "steps": steps})
             out.append(f)
-    return out, n, nchk
+    return out, cnt, nchk
+
+
+def deviation_of(f):
+    """Name of the (possibly listed) known finding an observation belongs to; None: plain violation."""
+    # vertex normals that were ASSIGNED are kept in the cache only; copy() and copy.deepcopy() promise an empty
+    # cache (tests/test_copy.py asserts it), so the copy reports recomputed normals.  Only this exact observation:
+    # the one projection key `vn`, by the two routes that drop the cache, on the mesh built with assigned normals.
+    if (f["clause"] == "Faithful" and f["kind"] == "mesh_normals" and f.get("differs") == ["vn"]
+            and f["route"] in ("copy", "copy.deepcopy")):
+        return "AssignedVertexNormalsDroppedWithCache"
+    return None
 
 
 def effective_edits(tm):
     """Every catalogued edit must change the projection of the object it is applied to."""
     bad = []
-    n = 0
+    n = nd = 0
     for k in all_kinds():
         for cls, lst in k.edits(tm).items():
             for cname, fn in lst:
@@ -522,7 +1056,68 @@ def effective_edits(tm):
                 n += 1
                 if k.project(tm, o) == p0:
                     bad.append((k.name, cname, "no effect"))
-    return n, bad
+        for cname, fn in k.dedits(tm):
+            if k.dproject(tm, k.make(tm)) is None:
+                continue
+            o = k.make(tm)
+            p0 = k.full(tm, o)
+            try:
+                fn(o)
+            except BaseException as e:  # noqa
+                bad.append((k.name, "derived " + cname, "raised " + type(e).__name__))
+                continue
+            nd += 1
+            if k.full(tm, o) == p0:
+                bad.append((k.name, "derived " + cname, "no effect"))
+    return n, nd, bad
+
+
+def discover_reads(tm, kind):
+    """Public values an object of this kind can report: every property of its class plus the kind's
+    own list of method calls / nested values, kept if it evaluates on a fresh object."""
+    o = kind.make(tm)
+    names = [n for n in sorted(dir(type(o))) if not n.startswith("_") and isinstance(getattr(type(o), n, None), property)]
+    names += [e for e in kind.manual_reads if e not in names]
+    ok = []
+    for n in names:
+        if do_read(o, n):
+            ok.append(n)
+    return ok
+
+
+def run_tlc(tier):
+    """All TLC runs of the check, side by side (each is a separate JVM)."""
+    from concurrent.futures import ThreadPoolExecutor
+    q = tier == "quick"
+    jobs = [
+        ("mc", "intended design: Faithful, Isolated (3 field classes, 2 objects)", cfg(6 if q else 7), {}),
+        ("mc", "intended design with derived objects that view their source and are edited (2 field classes)",
+         cfg(6 if q else 7, fields="F2", de=True, dvs=True), {}),
+        ("mc", "intended design, chains of copies (3 objects, derived edits)", cfg(6 if q else 7, fields="F1", objs="Objs3", de=True, dvs=True), {}),
+        ("mc", "intended design, chains of copies (3 objects, 2 field classes)", cfg(5 if q else 6, fields="F2", objs="Objs3"), {}),
+        ("self:Isolated", "shared field", cfg(6, sh="ShMeta"), {}),
+        ("self:Faithful", "dropped field", cfg(6, dr="DrParam"), {}),
+        ("self:Faithful", "adopts unverified memo", cfg(6, auc=True), {}),
+        ("self:Isolated", "memo handed over with the same derived objects, one of them edited", cfg(7, fields="F1", de=True, sd=True), {}),
+        ("self:Isolated", "shared derived object that views the source's buffer, source edited in place",
+         cfg(7, fields="F1", de=False, sd=True, dvs=True), {}),
+        ("self:Isolated", "shared field along a chain of copies", cfg(7, fields="F2", objs="Objs3", sh="ShMeta"), {}),
+        ("emit:base", "emit all histories depth %d" % (4 if q else 5), cfg(4 if q else 5, view=False, props=EMIT), dict(workers=1, timeout=1500)),
+        ("emit:derived", "emit histories with derived-object edits depth %d" % (5 if q else 6),
+         cfg(5 if q else 6, fields="F1", de=True, view=False, props=EMIT), dict(workers=1, timeout=1500)),
+        ("emit:chain", "emit histories over 3 objects depth %d" % (4 if q else 5),
+         cfg(4 if q else 5, fields="F2", objs="Objs3", view=False, props=EMIT), dict(workers=1, timeout=1500)),
+    ]
+
+    def one(ij):
+        i, (what, name, c, kw) = ij
+        d = tlc.prepare("c17/tlc%d" % i)
+        kw = dict(kw)
+        kw.setdefault("workers", 2)
+        return tlc.run(d, "CopyHeap", c, **kw)
+    with ThreadPoolExecutor(max_workers=7) as ex:
+        results = list(ex.map(one, enumerate(jobs)))
+    return [(j[0], j[1], r) for j, r in zip(jobs, results)]
 
 
 def main(argv):
@@ -531,70 +1126,156 @@ def main(argv):
     tm = import_trimesh()
     cov = {"tlc_runs": []}
     states = trans = 0
-
-    def note(name, r):
-        nonlocal states, trans
+    emitted = {}
+    selftests = []
+    for what, name, r in run_tlc(tier):
+        if what.startswith("self:"):
+            want = what.split(":")[1]
+            if r.violated != want:
+                raise MachineryError(f"spec self-test '{name}': expected {want}, got {r.violated} {r.error}")
+            selftests.append("%s -> %s" % (name, want))
+            continue
+        tlc.must(r, name)
         states += r.distinct
         trans += r.generated
         cov["tlc_runs"].append({"run": name, "distinct": r.distinct, "generated": r.generated, "wall_s": round(r.wall, 1)})
+        if what.startswith("emit:"):
+            emitted[what.split(":")[1]] = r.printed
+    cov["spec_selftests"] = "; ".join(selftests) + ": all reported by TLC"
 
-    d = tlc.prepare("c17/mc")
-    r = tlc.must(tlc.run(d, "CopyHeap", cfg(6 if tier == "quick" else 7)), "intended")
-    note("intended design: Faithful, Isolated", r)
-    for name, kw, want in (("shared field", dict(sh="ShMeta"), "Isolated"), ("dropped field", dict(dr="DrParam"), "Faithful"),
-                           ("adopts unverified memo", dict(auc=True), "Faithful")):
-        rr = tlc.run(d, "CopyHeap", cfg(5, **kw))
-        if rr.violated != want:
-            raise MachineryError(f"spec self-test '{name}': expected {want}, got {rr.violated} {rr.error}")
-    cov["spec_selftests"] = "shared field -> Isolated, dropped field -> Faithful, adopted memo -> Faithful: all reported by TLC"
-    d = tlc.prepare("c17/emit")
-    depth = 4 if tier == "quick" else 5
-    r = tlc.must(tlc.run(d, "CopyHeap", cfg(depth, view=False, props="INVARIANT EmitLeaf"), workers=1, timeout=1500), "emit")
-    note(f"emit all histories depth {depth}", r)
-    hists = [h for h in r.printed if any(s["op"] == "copy" for s in h)]
-    if len(hists) < 200:
-        raise MachineryError("too few histories with a copy")
-    nedit, bad = effective_edits(tm)
+    def ncopies(h):
+        return sum(s["op"] == "copy" for s in h)
+    hists = [h for h in emitted["base"] if ncopies(h) >= 1]
+    dhists = [h for h in emitted["derived"] if ncopies(h) >= 1 and any(s["op"] == "edit_derived" for s in h)]
+    chists = [h for h in emitted["chain"] if ncopies(h) >= 2]
+    if len(hists) < 200 or len(dhists) < 100 or len(chists) < 100:
+        raise MachineryError("too few histories: base %d, derived %d, chain %d" % (len(hists), len(dhists), len(chists)))
+    nedit, ndedit, bad = effective_edits(tm)
     if bad:
         raise MachineryError("edit catalogue entries without effect: %s" % bad[:5])
     kinds = all_kinds()
+    dkinds = [k for k in kinds if k.dproject(tm, k.make(tm)) is not None]
+    if len(dkinds) < 6 or ndedit < 15:
+        raise MachineryError("derived-object family nearly empty: %d kinds, %d edits" % (len(dkinds), ndedit))
+    for k in kinds:
+        XREADS[k.name] = discover_reads(tm, k)
+    nreads = {k.name: len(XREADS[k.name]) for k in kinds}
+    if min(nreads.values()) < 15 or nreads["mesh_face_color"] < 70 or nreads["scene"] < 35:
+        raise MachineryError("catalogue of public values nearly empty: %s" % nreads)
+    quick = tier == "quick"
     work = []
-    i = 0
-    per = 1 if tier == "quick" else 3
+    per = 1 if quick else 3
+    # base: TLC histories over the kinds (the 15 original kinds keep their share, the new ones come on top)
+    old, new = kinds[:N_OLD_KINDS], kinds[N_OLD_KINDS:]
     for hi, h in enumerate(hists):
         for t in range(per):
-            k = kinds[(hi + t * 5) % len(kinds)]
-            route = k.routes[(hi // len(kinds) + t) % len(k.routes)]
-            work.append((hi * 3 + t, h, k.name, route))
-    # plus: every kind x route x every single cell edit on either side, cache warm and cold
+            k = old[(hi + t * 5) % len(old)]
+            route = k.routes[(hi // len(old) + t) % len(k.routes)]
+            work.append((hi * 3 + t, h, k.name, route, "base"))
+        if quick and hi % 2:
+            continue
+        k = new[(hi // (2 if quick else 1)) % len(new)]
+        route = k.routes[(hi // len(new)) % len(k.routes)]
+        work.append((hi * 3 + 1, h, k.name, route, "base"))
+    # cells: every kind x route x every single cell edit on either side, cache warm and cold
     for k in kinds:
         for route in k.routes:
             for cls, lst in k.edits(tm).items():
                 for ci in range(len(lst)):
                     for side in ("a", "b"):
                         for warm in (True, False):
-                            h = ([{"op": "read", "x": "a", "f": cls}] if warm else []) + [{"op": "copy"}] + \
-                                ([{"op": "read", "x": "b", "f": cls}] if warm else []) + [{"op": "edit", "x": side, "f": cls}]
-                            # rot chosen so that (rot + j) % len == ci at the edit step
-                            j = len(h) - 1
-                            work.append(((ci - j) % len(lst) - seed(), h, k.name, route))
+                            h = ([{"op": "read", "x": "a", "f": cls}] if warm else []) + [{"op": "copy", "src": "a", "dst": "b"}] + \
+                                ([{"op": "read", "x": "b", "f": cls}] if warm else []) + [{"op": "edit", "x": side, "f": cls, "ci": ci}]
+                            work.append((ci, h, k.name, route, "cells"))
                     # edit the original in place, then copy without any read in between
-                    h = [{"op": "read", "x": "a", "f": cls}, {"op": "edit_unnoticed", "x": "a", "f": cls}, {"op": "copy"}]
-                    work.append(((ci - 1) % len(lst) - seed(), h, k.name, route))
+                    h = [{"op": "read", "x": "a", "f": cls}, {"op": "edit_unnoticed", "x": "a", "f": cls, "ci": ci},
+                         {"op": "copy", "src": "a", "dst": "b"}]
+                    work.append((ci, h, k.name, route, "cells"))
+    # derived: TLC histories with derived-object edits on every kind that hands out derived objects
+    for hi, h in enumerate(dhists):
+        for t in range(1 if quick else 3):
+            k = dkinds[(hi + t) % len(dkinds)]
+            route = k.routes[(hi // len(dkinds) + t) % len(k.routes)]
+            work.append((hi + t, h, k.name, route, "derived"))
+    # ... and systematically: every derived edit / every geometry edit x route x side after a warm copy
+    for k in dkinds:
+        for route in k.routes:
+            for side in ("a", "b"):
+                pre = [{"op": "read", "x": "a", "f": "geom"}, {"op": "copy", "src": "a", "dst": "b"}, {"op": "read", "x": "b", "f": "geom"}]
+                for ci in range(len(k.dedits(tm))):
+                    work.append((ci, pre + [{"op": "edit_derived", "x": side, "f": "geom", "ci": ci}], k.name, route, "derived"))
+                for ci in range(len(k.edits(tm)["geom"])):
+                    work.append((ci, pre + [{"op": "edit", "x": side, "f": "geom", "ci": ci}], k.name, route, "derived"))
+    # chain: three objects
+    for hi, h in enumerate(chists):
+        for t in range(1 if quick else 2):
+            k = kinds[(hi + t * 7) % len(kinds)]
+            route = k.routes[(hi // len(kinds) + t) % len(k.routes)]
+            work.append((hi + t, h, k.name, route, "chain"))
+    # ... and systematically: two copies of one source / a copy of a copy, then one cell of each class edited on each object
+    n = 0
+    for k in kinds:
+        for route in k.routes:
+            for cls in sorted(k.edits(tm)):
+                for second in ("a", "b"):
+                    for side in ("a", "b", "c"):
+                        h = [{"op": "copy", "src": "a", "dst": "b"}, {"op": "read", "x": "b", "f": cls},
+                             {"op": "copy", "src": second, "dst": "c"}, {"op": "edit", "x": side, "f": cls}]
+                        work.append((n, h, k.name, route, "chain"))
+                        n += 1
+    # reads: one public value, copy by every route, edit the copy; everything evaluated, copy
+    for k in kinds:
+        if quick and not k.representative:
+            continue
+        for route in k.routes:
+            for i, e in enumerate(XREADS[k.name]):
+                h = [{"op": "read", "x": "a", "expr": e}, {"op": "copy", "src": "a", "dst": "b"}, {"op": "edit", "x": "b", "f": "geom"}]
+                work.append((i, h, k.name, route, "reads"))
+    for k in kinds:
+        for route in k.routes:
+            h = [{"op": "read", "x": "a", "all": True}, {"op": "copy", "src": "a", "dst": "b"}, {"op": "read", "x": "b", "all": True},
+                 {"op": "edit", "x": "a", "f": "geom"}, {"op": "edit", "x": "b", "f": "param"}]
+            work.append((0, h, k.name, route, "reads"))
     t0 = time.time()
-    res = pmap(_chunk, work, chunk=60)
-    nrep = sum(x[1] for x in res)
+    res = pmap(_chunk, work, chunk=40)
+    fam = {}
+    for x in res:
+        for f, n in x[1].items():
+            fam[f] = fam.get(f, 0) + n
+    nrep = sum(fam.values())
     nchk = sum(x[2] for x in res)
+    need = {"base": 2000, "cells": 3000, "derived": 400, "chain": 1500, "reads": 300}
+    for f, n in need.items():
+        if fam.get(f, 0) < n:
+            raise MachineryError("family '%s' nearly empty: %d replays (< %d)" % (f, fam.get(f, 0), n))
+    # one VIOLATION per (clause, kind, what differs): the routes / histories that show it are listed with it
+    grouped = {}
     for x in res:
         for f in x[0]:
-            V.violation("%s:%s" % (f["clause"], f["kind"]), f)
+            f["deviation"] = deviation_of(f)
+            key = (f["clause"], f["kind"], json.dumps(f.get("differs") or f.get("changed_on_other") or f.get("exc")), f.get("cell", ""),
+                   str(f["deviation"]))
+            g = grouped.setdefault(key, dict(f, routes=[], occurrences=0))
+            g["occurrences"] += 1
+            if f["route"] not in g["routes"]:
+                g["routes"].append(f["route"])
+    for key in sorted(grouped):
+        f = grouped[key]
+        f.pop("route", None)
+        V.violation("%s:%s" % (f["clause"], f["kind"]), f, f.pop("deviation"))
     cov.update({"states": states, "transitions": trans, "traces_validated_against_impl": nrep,
-                "faithful_or_isolated_checks": nchk, "kinds": [k.name for k in kinds], "copy_routes": list(Kind.routes),
-                "edit_cells": nedit, "tlc_histories": len(hists), "replay_wall_s": round(time.time() - t0, 1),
-                "samples": [hists[len(hists) // 2], work[-1][1]]})
+                "replays_by_family": fam, "faithful_or_isolated_checks": nchk, "kinds": [k.name for k in kinds],
+                "kinds_with_derived_objects": [k.name for k in dkinds],
+                "copy_routes": sorted({r for k in kinds for r in k.routes}),
+                "edit_cells": nedit, "derived_object_edits": ndedit, "public_values_read_before_copy": nreads,
+                "tlc_histories": {"base": len(hists), "derived": len(dhists), "chain": len(chists)},
+                "replay_wall_s": round(time.time() - t0, 1),
+                "samples": [hists[len(hists) // 2], dhists[len(dhists) // 2], chists[len(chists) // 2], work[-1][1]]})
     return V.finish("model_checking", cov, assumptions=[
-        "user face/vertex attributes are not demanded of copies (the statement lists geometry, parameters, visuals, metadata)",
-        "edits are edits of data (arrays, parameters, metadata incl. nested containers, graph edges, encodings, images)",
+        "edits are edits of data (arrays, parameters, metadata incl. nested containers, graph edges, encodings, images, "
+        "user vertex/face attributes) or of a derived object a getter handed out (only ISOLATION is demanded for those: "
+        "what an object reports after its own derived object was edited is not constrained)",
+        "colours derived from the other colour kind, the `mutable` flag of primitives and `Trimesh.source` are not part of the copy contract",
     ])
 
 
